@@ -191,6 +191,8 @@ def check_unit(spec_path, do_twins=True, keep=True):
     # cannot resolve (E0425, SCREAMING_CASE) is looked up as `const NAME: T = ..;` in the items' files and copied
     extra = ""
     auto_consts = []
+    auto_lets = {}
+    prelets = {}
     r = run_verus(gpath, u.get("rlimit"))
     for _round in range(4):
         missing = sorted(set(re.findall(r"error\[E0425\]: cannot find value `([A-Z][A-Z0-9_]+)` in this scope", r["stderr"])))
@@ -205,15 +207,34 @@ def check_unit(spec_path, do_twins=True, keep=True):
                     auto_consts.append(name)
                     added = True
                     break
+        # a lifted block that refers to a local of its enclosing function which is not a declared parameter (a local a
+        # change introduced): copy the immutable `let` that defines it in front of the block
+        for d in parse_diags(r["stderr"]):
+            m = re.match(r"cannot find value `([a-z_][a-z0-9_]*)` in this scope", d["msg"])
+            if not m or d["level"] != "error":
+                continue
+            name = m.group(1)
+            it = item_for_line(meta, d["line"]) if d["line"] else None
+            if it is None or not any(e.get("kind") in ("lift-block", "lift-stmts", "lift-closure") for e in it["edits"]):
+                continue
+            idx = meta["items"].index(it)
+            if any(x[0] == name for x in auto_lets.get(idx, [])):
+                continue
+            stmt = rsx.find_outer_let(REPO, it["relpath"], it["steps"], name, it["src_lines"][0])
+            if stmt:
+                auto_lets.setdefault(idx, []).insert(0, (name, stmt))
+                added = True
         if not added:
             break
+        prelets = {k: [x[1] for x in v] for k, v in auto_lets.items()}
         try:
-            text, meta = vspec.generate(u, REPO, SPECS, extra=extra)
+            text, meta = vspec.generate(u, REPO, SPECS, extra=extra, prelets=prelets)
         except Exception:
             break
         open(gpath, "w").write(text)
         r = run_verus(gpath, u.get("rlimit"))
     res["auto_consts"] = auto_consts
+    res["auto_lets"] = [x[1] for v in auto_lets.values() for x in v]
     res["extra"] = extra
     res["assumption_sites"] = scan_assumptions(text)
     # closure literals without a contract, per extracted item: Verus knows nothing about what such a closure returns,
@@ -288,7 +309,7 @@ def check_unit(spec_path, do_twins=True, keep=True):
         jobs = []
         for idx, it in enumerate(meta["items"]):
             if it["contracted"]:
-                ttext, _ = vspec.generate(u, REPO, SPECS, twin_of=idx, extra=extra)
+                ttext, _ = vspec.generate(u, REPO, SPECS, twin_of=idx, extra=extra, prelets=prelets)
                 tpath = os.path.join(gdir, "%s_twin%d.rs" % (u["unit"], idx))
                 open(tpath, "w").write(ttext)
                 jobs.append((it["label"], tpath))
